@@ -17,6 +17,7 @@ larger than BAND in magnitude the checks are suspended (softmax / sigmoid satura
 from __future__ import annotations
 
 import itertools
+import math
 from typing import Any
 
 import numpy as np
@@ -63,7 +64,8 @@ def install(w: Any) -> None:
     def log_mass(c: Any) -> tuple[str, torch.Tensor] | None:
         """(route, log Z per output) or None when no route applies."""
         sts = _states_of(c)
-        if sts is not None and int(np.prod(sts)) <= MAX_BRUTE and len(sts) == len(c.cc.scope):
+        # (python integers: a product over 130 variables overflows int64)
+        if sts is not None and math.prod(int(k) for k in sts) <= MAX_BRUTE and len(sts) == len(c.cc.scope):
             X = grids.get(c.name)
             if X is None:
                 X = np.array(list(itertools.product(*[range(k) for k in sts])), dtype=np.int64)
@@ -105,10 +107,45 @@ def install(w: Any) -> None:
             return f"dag:{r['input']['type']}:{len(r['nodes'])} nodes"
         return f"rg:{r['rg']['algo']}:{r['input']['type']}:{r['sp']}:{r.get('nary')}"
 
+    def staged_integrals(c: Any) -> list[Any]:
+        """Derived circuits with empty scope obtained from ``c`` by integration in stages
+        (integrate some variables, then the rest): each of them is the partition function too."""
+        out = []
+        for d in w.alive("derived"):
+            if len(d.cc.scope) != 0 or d.bases != (c.name,):
+                continue
+            cur, ok, depth = d, True, 0
+            while cur.kind == "derived":
+                sp = cur.spec or {}
+                if sp.get("opr") != "integrate" or sp.get("pre") is not None or len(cur.srcs) != 1:
+                    ok = False
+                    break
+                cur = w.circs[cur.srcs[0]]
+                depth += 1
+            if ok and cur is c and depth >= 2:
+                out.append(d)
+        return out
+
     def check(c: Any, where: str, after_update: bool) -> None:
         if not in_band(c):
             w.tr.count("c12:out-of-band")
             return
+        for d in staged_integrals(c):
+            try:
+                y = oracles.evaluate(d.cc, None)
+            except Exception as e:
+                raise Violation("M4", f"{d.name}: staged integral of {c.name} ({_name(c)}) cannot be evaluated {where}: {type(e).__name__}")
+            lz = torch.log(y) if w.semiring == "sum-product" else y
+            lz = lz.real if lz.is_complex() else lz
+            w.tr.count("c12:mass:staged-integrate")
+            tol_ = TOL32 if w.plan["config"].get("dtype") == "float32" else TOL
+            if not bool(torch.isfinite(lz).all()) or float(lz.abs().max()) > tol_:
+                raise Violation(
+                    "M1",
+                    f"{c.name} ({_name(c)}; fold={w.fold} optimize={w.optimize} {w.semiring}) has "
+                    f"log-partition {lz.reshape(-1).tolist()[:4]} when integrated in stages "
+                    f"({d.name}), expected 0 {where}",
+                )
         try:
             res = log_mass(c)
         except Violation:
